@@ -15,17 +15,32 @@ vars == <<i, rejects>>
 SeqToSetOfPairs(s) == {<<s[k][1], s[k][2]>> : k \in 1..Len(s)}
 Rt(x) == <<x[1], x[2]>>
 EdgesOf(ev) ==
-  IF ev.kind = "graph" THEN SeqToSetOfPairs(ev.e)
+  IF ev.kind \in {"graph", "algo"} THEN SeqToSetOfPairs(ev.e)
   ELSE IF ev.kind = "events" THEN EventEdges(ev.ref, ev.est, ev.w)
   ELSE IF ev.kind = "chroma" THEN ModEdges(ev.ref, ev.est, ev.w, ev.modulus)
   ELSE IF ev.kind = "notes" THEN NoteEdges(ev.ref, ev.est, Rt(ev.ot), Rt(ev.pt), Rt(ev.ratio), Rt(ev.mintol), ev.strict)
   ELSE IF ev.kind = "onsets" THEN OnsetEdges(ev.ref, ev.est, Rt(ev.ot), ev.strict)
   ELSE OffsetEdges(ev.ref, ev.est, Rt(ev.ratio), Rt(ev.mintol), ev.strict)
+(* kind "algo": the snapshots of the matching taken between augmentations are a behaviour of the machine of   *)
+(* MC_C05_algo: the first is a MAXIMAL matching (Greedy), every later one keeps all matched vertices matched     *)
+(* and is at least as large (Phase), the returned matching covers the last snapshot and admits no augmenting     *)
+(* path (Finish).  No snapshots = nothing to check here.                                                          *)
+Snap(ev, k) == SeqToSetOfPairs(ev.snaps[k])
+Covers(A, B) == LeftOf(A) \subseteq LeftOf(B) /\ RightOf(A) \subseteq RightOf(B)
+AlgoVerdict(ev, E) ==
+  IF Len(ev.snaps) = 0 THEN "ok"
+  ELSE IF \E k \in 1..Len(ev.snaps) : ~IsMatching(Snap(ev, k), E) THEN "phase-state-not-a-matching"
+  ELSE IF ~IsMaximal(Snap(ev, 1), E) THEN "greedy-state-not-maximal"
+  ELSE IF \E k \in 1..(Len(ev.snaps) - 1) :
+            ~Covers(Snap(ev, k), Snap(ev, k + 1)) \/ Cardinality(Snap(ev, k + 1)) < Cardinality(Snap(ev, k)) THEN "phase-step-loses-a-vertex"
+  ELSE IF ~Covers(Snap(ev, Len(ev.snaps)), SeqToSetOfPairs(ev.m)) THEN "result-loses-a-vertex"
+  ELSE "ok"
 Verdict(ev) ==
   LET E == EdgesOf(ev)
       M == SeqToSetOfPairs(ev.m)
       v == MatchVerdict(M, E, ev.nl, ev.nr)
-  IN  IF Cardinality(M) # Len(ev.m) THEN "duplicate-pair"
+  IN  IF ev.kind = "algo" /\ AlgoVerdict(ev, E) # "ok" THEN AlgoVerdict(ev, E)
+      ELSE IF Cardinality(M) # Len(ev.m) THEN "duplicate-pair"
       ELSE IF v # "ok" THEN v
       ELSE IF ev.count # Cardinality(M) THEN "count-differs"
       ELSE "ok"
